@@ -16,7 +16,7 @@ from acnportal.acnsim.network import ChargingNetwork, Current
 from acnportal.algorithms import BaseAlgorithm, UncontrolledCharging, SortedSchedulingAlgo, first_come_first_served
 from acnportal.algorithms.utils import infrastructure_constraints_feasible
 
-from mc.core import Acc
+from mc.core import Acc, guard
 from mc import simspace as S
 
 ID = "C06"
@@ -274,6 +274,7 @@ def run_history(item, acc=None):
             try:
                 exp, near = check_point("_hist", order, tol, net, iface, [col], viol, "after edit %d (%s) %s" % (k, op, tag))
             except Exception as exc:
+                guard(exc)
                 viol.append(("history:exception:%s" % type(exc).__name__, "checker raised %r after edit %d" % (exc, k), {"step": k}, repr(exc), None))
                 break
             for i in range(n0, len(viol)):
@@ -308,6 +309,7 @@ def execute(item, acc=None, only=None):
             info = iface.infrastructure_info()
             iface.max_pilot_signal(order[0]), iface.get_constraints()
         except Exception as exc:
+            guard(exc)
             viol.append(("unconstrained:interface-unusable", "Interface cannot describe a constraint-free network: %r" % exc, {"tpl": tname, "order": order, "tol": list(tol), "cols": []}, repr(exc), None))
             return viol
     for tag, col in pts:
@@ -323,6 +325,7 @@ def execute(item, acc=None, only=None):
             try:
                 exp, near = check_point(tname, order, tol, net, iface, cols, viol, tag)
             except Exception as exc:
+                guard(exc)
                 viol.append(("exception:%s" % type(exc).__name__, "checker raised %r" % exc, {"tpl": tname, "order": order, "tol": list(tol), "cols": cols}, repr(exc), None))
                 continue
             if acc is not None:
